@@ -249,6 +249,27 @@ enum ClientMessageMirror {
     Cancel { trace_context: trace::Context, request_id: u64 },
 }
 
+#[derive(Serialize)]
+struct ServerErrorMirror {
+    kind: u32,
+    detail: String,
+}
+#[derive(Serialize)]
+struct ResponseMirror {
+    request_id: u64,
+    message: Result<String, ServerErrorMirror>,
+}
+
+pub fn response_with_kind(codec: Codec, id: u64, kind: u32) -> Vec<u8> {
+    frame(&encode_body(
+        codec,
+        &ResponseMirror {
+            request_id: id,
+            message: Err(ServerErrorMirror { kind, detail: "d".into() }),
+        },
+    ))
+}
+
 pub fn frame(body: &[u8]) -> Vec<u8> {
     let mut v = (body.len() as u32).to_be_bytes().to_vec();
     v.extend_from_slice(body);
@@ -398,8 +419,30 @@ fn well_formed_client_message(codec: Codec, frame_bytes: &[u8]) -> Option<String
     }
 }
 
-fn mutate_server_frames(st: &mut S16, codec: Codec, frames: &[(String, Vec<u8>)], all_values: bool) {
+fn mutate_server_frames(st: &mut S16, codec: Codec, frames: &[(String, Vec<u8>)], all_values: bool, pairs: bool) {
     for (name, f) in frames {
+        if pairs {
+            // two adjacent bytes substituted at once, from a boundary value set
+            let vals = [0u8, 1, 0x7f, 0x80, 0xfe, 0xff, b'"', b'0'];
+            for pos in 0..f.len().saturating_sub(1) {
+                for a in vals {
+                    for b in vals {
+                        if a == f[pos] && b == f[pos + 1] {
+                            continue;
+                        }
+                        let mut m = f.clone();
+                        m[pos] = a;
+                        m[pos + 1] = b;
+                        let wf = well_formed_client_message(codec, &m);
+                        let expect = match &wf {
+                            Some(s) if !s.contains(&format!("id: {PROBE_ID}")) && !s.contains(&format!("request_id: {PROBE_ID}")) => Some(true),
+                            _ => None,
+                        };
+                        server_case(st, codec, &format!("{name} bytes {pos},{} := {a:#04x},{b:#04x}", pos + 1), &m, expect);
+                    }
+                }
+            }
+        }
         // every single-byte substitution
         for pos in 0..f.len() {
             let vals: Vec<u8> = if all_values {
@@ -509,6 +552,24 @@ fn client_cases(st: &mut S16, codec: Codec, regime: Regime, now: Instant, mutate
         } else if r.call.as_deref() != Some("Ok(1)") {
             failure(st, "C16-client-call-lost".into(), format!("{codec:?} [{regime:?}] unsolicited responses then the reply: call {:?} dispatch {:?}", r.call, r.dispatch));
         }
+        // error kinds a peer may put on the wire, inside and beyond the 18-entry table: the call
+        // for id 0 resolves with that error (never a panic), unknown ids are ignored
+        for kind in (0u32..=40).chain([127, 128, 255, 256, 65_535, 65_536, u32::MAX - 1, u32::MAX]) {
+            for id in [0u64, 77] {
+                let mut input = response_with_kind(codec, id, kind);
+                input.extend_from_slice(&ok_reply);
+                st.evals += 1;
+                st.distinct.insert(h(&(codec, regime, "kind", kind, id)));
+                let r = client_bytes(codec, None, &input);
+                if let Some(p) = &r.panic {
+                    failure(st, format!("C16-client-panic/{}", site(p)), format!("{codec:?} [{regime:?}] response for id {id} with error kind number {kind}: {p}"));
+                } else if r.stuck || r.call.is_none() {
+                    failure(st, "C16-client-call-lost".into(), format!("{codec:?} [{regime:?}] response for id {id} with error kind number {kind}: call {:?} dispatch {:?}", r.call, r.dispatch));
+                } else if id == 77 && r.call.as_deref() != Some("Ok(1)") {
+                    failure(st, "C16-client-call-lost".into(), format!("{codec:?} [{regime:?}] unsolicited error response (kind {kind}) disturbed the call: {:?}", r.call));
+                }
+            }
+        }
         if mutate {
             // every single-byte substitution / truncation of a valid response frame, then the real reply
             let frames = [
@@ -568,7 +629,10 @@ pub fn run_c16(tier: Tier) -> i32 {
             jobs.push(Job::Client(codec, regime, regime == Regime::NoSubscriber));
         }
     }
-    let all_values = tier == Tier::Thorough;
+    // every one of the 256 values at every position, in both tiers (the thorough tier adds
+    // pairs of adjacent substitutions)
+    let all_values = true;
+    let pairs = tier == Tier::Thorough;
     // Jobs that need a tracing subscriber run afterwards, serially, under one subscriber each
     // (see chain_props::run_c07 for why per-thread subscribers in parallel are unreliable).
     let (jobs, regime_jobs): (Vec<Job>, Vec<Job>) = jobs.into_iter().partition(|j| match j {
@@ -597,7 +661,7 @@ pub fn run_c16(tier: Tier) -> i32 {
                                 let m = &cc[picks[k]];
                                 let body = encode_body(codec, m);
                                 let frames = vec![(format!("frame#{}", picks[k]), frame(&body))];
-                                mutate_server_frames(&mut st, codec, &frames, all_values || k == 0);
+                                mutate_server_frames(&mut st, codec, &frames, all_values || k == 0, pairs);
                             }
                             Job::Boundary(codec, regime) => boundary_server_cases(&mut st, codec, regime),
                             Job::Client(codec, regime, mutate) => client_cases(&mut st, codec, regime, now, mutate, all_values),
